@@ -7,10 +7,10 @@ import DriverLib.Revo
 -/
 open Lean DriverLib
 
-def dispatch (k : String) (i : Json) : E Json :=
+def dispatch (prop k : String) (i impl : Json) : E Json :=
   match k with
   | "chain" => handleChain i
-  | "validate" => handleValidate i
+  | "validate" => handleValidate prop i impl
   | _ => throw s!"unknown handler {k}"
 
 def answer (line : String) : String :=
@@ -18,7 +18,9 @@ def answer (line : String) : String :=
   | .error e => (jobj [("error", jstr s!"parse: {e}")]).compress
   | .ok j =>
     let id := (j.getObjVal? "id").toOption.getD Json.null
-    match (do dispatch (← fldStr j "k") (← fld j "in") : E Json) with
+    let impl := (j.getObjVal? "impl").toOption.getD Json.null
+    let prop := ((j.getObjVal? "p").toOption.bind (fun p => p.getStr?.toOption)).getD ""
+    match (do dispatch prop (← fldStr j "k") (← fld j "in") impl : E Json) with
     | .ok out => (jobj [("id", id), ("out", out)]).compress
     | .error e => (jobj [("id", id), ("error", jstr e)]).compress
 
